@@ -198,7 +198,7 @@ fn wstr(s: &[u8]) -> Vec<u8> {
 }
 
 /// hand encoder: id byte + wire value of value class `vc`
-fn wire_prop(id: PropertyId, vc: usize) -> Vec<u8> {
+pub fn wire_prop(id: PropertyId, vc: usize) -> Vec<u8> {
     let mut v = vec![id as u8];
     match shape(id) {
         Shape::Byte => v.push(V8[vc]),
@@ -377,6 +377,25 @@ pub fn body(loc: Loc, rc: u8, pbytes: &[u8]) -> Vec<u8> {
         }
     }
     b
+}
+
+/// fixed header byte of the minimal packet of a location
+pub fn fixed_header(loc: Loc) -> u8 {
+    match loc {
+        Loc::Connect | Loc::Will => 0x10,
+        Loc::Connack => 0x20,
+        Loc::Publish => 0x30,
+        Loc::Puback => 0x40,
+        Loc::Pubrec => 0x50,
+        Loc::Pubrel => 0x62,
+        Loc::Pubcomp => 0x70,
+        Loc::Subscribe => 0x82,
+        Loc::Suback => 0x90,
+        Loc::Unsubscribe => 0xa2,
+        Loc::Unsuback => 0xb0,
+        Loc::Disconnect => 0xe0,
+        Loc::Auth => 0xf0,
+    }
 }
 
 fn parse_packet(loc: Loc, body: &[u8]) -> Result<usize, MqttError> {
